@@ -1,12 +1,10 @@
 SPECIFICATION Spec
 CONSTANTS BS0 = 8
  BS1 = 16
- HS = 0
+ HS = 1
  MaxLen = 6
  Gen = FALSE
- Toggles = FALSE
-INVARIANT BufOK
-INVARIANT PendingOK
-INVARIANT RetInsideCur
+ Toggles = TRUE
 INVARIANT StoreOK
+INVARIANT RetInsideCur
 CHECK_DEADLOCK FALSE
